@@ -122,6 +122,46 @@ impl Oracle {
 //@ end
 }
 
+// ------------------------------------------------------------------ OracleAccessor: how handlers read and write a pool's adaptive-fee state (C14)
+//@ assume OracleAccessor shims: the oracle account is reduced to its key; is_oracle_account_initialized (system-owned empty account -> false; otherwise owner, discriminator and whirlpool-field checks -> true) and load / load_mut (bytemuck casts of the account data; load_mut demands a writable account) are external stubs: an initialized oracle's content is the uninterpreted oracle_of(key)
+pub struct OracleInfo<'info> { pub key: &'info Pubkey, pub is_writable: bool }
+pub type AccountInfo<'info> = OracleInfo<'info>;
+pub uninterp spec fn oracle_initialized(oracle: Pubkey, whirlpool: Pubkey) -> Result<bool>;
+pub uninterp spec fn oracle_of(oracle: Pubkey) -> Oracle;
+pub struct OracleRef { pub o: Oracle }
+impl std::ops::Deref for OracleRef { type Target = Oracle; fn deref(&self) -> (r: &Oracle) ensures *r == self.o { &self.o } }
+impl std::ops::DerefMut for OracleRef { fn deref_mut(&mut self) -> (r: &mut Oracle) ensures *r == old(self).o, *final(r) == final(self).o { &mut self.o } }
+//@ struct state/oracle.rs OracleAccessor
+impl<'info> OracleAccessor<'info> {
+    pub closed spec fn init(&self) -> bool { self.oracle_account_initialized }
+    pub closed spec fn okey(&self) -> Pubkey { *self.oracle_account_info.key }
+    pub closed spec fn writable(&self) -> bool { self.oracle_account_info.is_writable }
+    #[verifier::external_body]
+    fn is_oracle_account_initialized(oracle_account_info: &AccountInfo<'info>, whirlpool: Pubkey) -> (r: Result<bool>) ensures r == oracle_initialized(*oracle_account_info.key, whirlpool) { unimplemented!() }
+    #[verifier::external_body]
+    fn load(&self) -> (r: Result<OracleRef>) ensures r matches Ok(x) ==> x.o == oracle_of(self.okey()) { unimplemented!() }
+    #[verifier::external_body]
+    fn load_mut(&self) -> (r: Result<OracleRef>) ensures r matches Ok(x) ==> x.o == oracle_of(self.okey()) && self.writable() { unimplemented!() }
+//@ fn state/oracle.rs new in=/^impl<'info> OracleAccessor<'info> \{/ -> r tags=C14,C15
+    ensures r matches Ok(a) ==> oracle_initialized(*oracle_account_info.key, whirlpool.k) == Ok::<bool, Error>(a.init()) && a.okey() == *oracle_account_info.key && a.writable() == oracle_account_info.is_writable,
+//@ end
+/// trading is enabled on a pool without an oracle; on a pool with one, from its trade-enable timestamp on (inclusive)
+//@ fn state/oracle.rs is_trade_enabled in=/^impl<'info> OracleAccessor<'info> \{/ -> r tags=C14 canary
+    ensures r matches Ok(b) ==> b == (!self.init() || oracle_of(self.okey()).trade_enable_timestamp <= current_timestamp),
+//@ end
+/// the adaptive-fee state handed to the swap loop is exactly the stored constants and variables (None for a pool without an oracle)
+//@ fn state/oracle.rs get_adaptive_fee_info in=/^impl<'info> OracleAccessor<'info> \{/ -> r tags=C14 canary
+    ensures r matches Ok(o) ==> o == (if self.init() { Some(AdaptiveFeeInfo { constants: oracle_of(self.okey()).adaptive_fee_constants, variables: oracle_of(self.okey()).adaptive_fee_variables }) } else { None::<AdaptiveFeeInfo> }),
+//@ end
+/// the variables computed by the swap are written back into the oracle (and only the variables); a pool without an oracle has nothing to write
+//@ fn state/oracle.rs update_adaptive_fee_variables in=/^impl<'info> OracleAccessor<'info> \{/ -> r tags=C14 canary
+    requires self.init() == (*adaptive_fee_info is Some), // a swap returns next_adaptive_fee_info of the same shape as the info it was given
+    ensures r is Ok && self.init() ==> self.writable(),
+//@ inject before /^                Ok\(\(\)\)/
+                proof { assert(oracle.o == (Oracle { adaptive_fee_variables: adaptive_fee_info.variables, ..oracle_of(self.okey()) })); }
+//@ end
+}
+
 // ------------------------------------------------------------------ pool initialization (C19)
 //@ assume shims for Whirlpool::initialize / initialize_reward: Pubkey::ge is the negation of an uninterpreted strict order that is irreflexive (equal mints are rejected); WhirlpoolControlFlags and the two extension segments are opaque (their 32 bytes are not interpreted); derive(Default) on WhirlpoolRewardInfo is the all-default value; `(MIN..=MAX).contains(&x)` is rewritten (logged) to the comparison it denotes; `iter().position(|r| !r.initialized())` to the named helper first_uninitialized_reward
 #[verifier::external_body]
